@@ -469,7 +469,11 @@ func parentMain() int {
 			for j := range jobs {
 				s, n := j.start, j.count
 				for n > 0 {
-					wr := spawn(propID, tier, base, s, n, nil, perRun+time.Duration(n)*2*time.Second)
+					per := 2 * time.Second
+					if prop.SlowCase > per {
+						per = prop.SlowCase
+					}
+					wr := spawn(propID, tier, base, s, n, nil, perRun+time.Duration(n)*per)
 					if prop.OnStderr != nil {
 						prop.OnStderr(wr.stderr, wr.results, func(k string) { a.mu.Lock(); a.probes[k]++; a.mu.Unlock() })
 					}
